@@ -376,14 +376,14 @@ type c26Case struct {
 	linkFaults bool
 	parkCap    int64
 
-	next      atomic.Int64
-	completed atomic.Int64
-	inflight  atomic.Int64
-	parked    atomic.Int64
-	activeH   atomic.Int64
-	connSeq   atomic.Int64
+	next       atomic.Int64
+	completed  atomic.Int64
+	inflight   atomic.Int64
+	parked     atomic.Int64
+	activeH    atomic.Int64
+	connSeq    atomic.Int64
 	connClosed atomic.Int64
-	gate      chan struct{}
+	gate       chan struct{}
 
 	done    []chan struct{}
 	started []chan struct{}
@@ -1111,7 +1111,9 @@ func TestVerifC26RPC(t *testing.T) {
 		marathon := ci%marathonEvery == marathonEvery/2
 		cfg := c26GenCfg(rng, marathon)
 		r.BeginCase(ci, fmt.Sprintf("%+v", cfg))
+		t0 := time.Now()
 		ok, nt := c26RunCase(r, ci, cfg)
+		t.Logf("case %d took %v nontrivial=%v cfg=%+v", ci, time.Since(t0).Round(time.Millisecond), nt, cfg)
 		ran++
 		if nt {
 			nNontrivial++
